@@ -92,3 +92,28 @@ def ancestor(rng, pts, lev, min_points=3):
         P = [p for i, p in enumerate(P) if i not in drop]
         L = [l for i, l in enumerate(L) if i not in drop]
     return P, L
+
+
+def variant(rng, pts, lev, max_depth=14):
+    """Another refinement tree with (mostly) the same points: one deepest leaf point is removed and another leaf interval is split.
+    Component grids of one adaptive iteration look like this to each other: many shared coordinates, different neighbours."""
+    P, L = list(pts), list(lev)
+    if len(P) < 4:
+        return P, L
+    m = max(L)
+    idx = [i for i, l in enumerate(L) if l == m and 0 < i < len(P) - 1]
+    if not idx:
+        return P, L
+    i = rng.choice(idx)
+    removed = P[i]
+    del P[i]
+    del L[i]
+    for _ in range(20):
+        j = rng.randrange(len(P) - 1)
+        mid = 0.5 * (P[j] + P[j + 1])
+        newl = max(L[j], L[j + 1]) + 1
+        if mid != removed and P[j] < mid < P[j + 1] and newl <= max_depth:
+            P.insert(j + 1, mid)
+            L.insert(j + 1, newl)
+            break
+    return P, L
